@@ -345,6 +345,29 @@ package router
 //@   modifies nothing
 //@   ensures [C07:marker-is-well-formed] err == nil ==> m != nil && markerOK(m)
 //@   ensures err != nil ==> m == nil
+// per line "start,end,label": what is left of the line after its '#' comment is cut off and it is trimmed is split at
+// its first two commas; the range that is added is [first field, second field] as netip.ParseAddr reads them, in
+// that order, under the index of the label that is the rest of the line
+//@   ghost gT string = ""
+//@   ghost nPA int = 0
+//@   ghost gL1 int = 0
+//@   ghost gL2 int = 0
+//@   ghost gA1 netip.Addr = nil
+//@   ghost gA2 netip.Addr = nil
+//@   aftercall TrimSpace: gT = ret0
+//@   aftercall TrimSpace: nPA = 0
+//@   callsite ParseAddr: [C07:range-bounds-are-the-first-two-fields] nPA <= 1 && forall(j, 0, len(arg0), arg0[j] != ',') && (nPA == 0
+//@             ? sameSlice(arg0, gT, 0, len(arg0)) && len(arg0) < len(gT) && gT[len(arg0)] == ','
+//@             : sameSlice(arg0, gT, gL1 + 1, gL1 + 1 + len(arg0)) && gL1 + 1 + len(arg0) < len(gT) && gT[gL1 + 1 + len(arg0)] == ',')
+//@   aftercall ParseAddr: gA1 = (nPA == 0 ? ret0 : gA1)
+//@   aftercall ParseAddr: gA2 = (nPA == 1 ? ret0 : gA2)
+//@   aftercall ParseAddr: gL1 = (nPA == 0 ? len(arg0) : gL1)
+//@   aftercall ParseAddr: gL2 = (nPA == 1 ? len(arg0) : gL2)
+//@   aftercall ParseAddr: nPA = nPA + 1
+//@   callsite Add: [C07:range-of-this-line-start-then-end] nPA == 2 && arg1 == gA1 && arg2 == gA2
+//@   ghost gRest string = ""
+//@   aftercall Cut: gRest = ret1
+//@   callsite Add: [C07:under-the-label-that-is-the-rest-of-the-line] 0 <= arg3 && arg3 < len(labels) && sameSlice(gRest, gT, gL1 + gL2 + 2, len(gT)) && keyOf(labelIndexes, labels[arg3]) == keyOf(labelIndexes, gRest)
 //@   loop 1:
 //@     modifies obj(listBuilder.b), listBuilder.b, obj(labels), obj(labelIndexes)
 //@     invariant listBuilder != nil && builderOK(listBuilder) && labelIndexes != nil && fresh(listBuilder) && (listBuilder.b == nil || fresh(listBuilder.b)) && fresh(labelIndexes) && (labels == nil || fresh(labels))
@@ -352,6 +375,7 @@ package router
 //@     invariant loopFresh(labels) || sameObj(labels, loopOld(labels))
 //@     invariant forall(k, 0, len(listBuilder.b), 0 <= listBuilder.b[k].v && listBuilder.b[k].v < len(labels))
 //@     invariant forallkey(k, labelIndexes, has(labelIndexes, k) ==> 0 <= labelIndexes[k] && labelIndexes[k] < len(labels))
+//@     invariant [C07:index-of-a-label-names-that-label] forallkey(k, labelIndexes, has(labelIndexes, k) ==> keyOf(labelIndexes, labels[labelIndexes[k]]) == k)
 //@ func (c *cacheCtl) ipMark(addr netip.Addr) (mark string)
 //@   props C07
 //@   requires c != nil && (c.ipMarker == nil || markerOK(c.ipMarker)) && (c.redis == nil || redisOK(c.redis))
